@@ -27,6 +27,8 @@ struct St {
     doc: XmlDocument,
     handles: Vec<Option<XmlNode>>,
     by_id: HashMap<usize, usize>,
+    // the document was read with text expansion on (the view xq / xe use): `domx`
+    expanded: bool,
 }
 
 impl St {
@@ -306,12 +308,14 @@ fn monitors(st: &St, exprs: &[String]) -> String {
     }
     // C15 / C14: serialize, re-parse, compare dumps and query results
     let text = format!("{}", st.doc);
-    let (rt, q) = match XmlDocument::from_raw(&text) {
+    let (rt, q) = match XmlDocument::from_raw_with_context(&text, Context::from_text_expanded(st.expanded)) {
         Ok(("", d2)) => {
-            let fresh = St { doc: d2.clone(), handles: vec![], by_id: HashMap::new() };
+            let fresh = St { doc: d2.clone(), handles: vec![], by_id: HashMap::new(), expanded: st.expanded };
             let a = plain_dump(&st.doc.as_node());
             let b = plain_dump(&fresh.doc.as_node());
-            let rt = if a == b { "ok".to_string() } else { format!("BAD(reparsed differs: {} vs {} text={})", a, b, e(&text)) };
+            // with text expansion on, the segmentation of character data into merged nodes is not comparable
+            let (a, b) = if st.expanded { (String::new(), String::new()) } else { (a, b) };
+            let rt = if st.expanded { "skip".to_string() } else if a == b { "ok".to_string() } else { format!("BAD(reparsed differs: {} vs {} text={})", a, b, e(&text)) };
             let mut qbad: Vec<String> = vec![];
             if a == b {
                 // C19: evaluating a query changes nothing in the document (tree shape, node identities, segmentation
@@ -369,7 +373,7 @@ fn strip(f: &str) -> String {
 
 // dump without handles, adjacent text nodes merged (what a re-parse can reproduce)
 fn plain_dump(n: &XmlNode) -> String {
-    let empty = St { doc: match n { XmlNode::Document(d) => d.clone(), _ => return String::new() }, handles: vec![], by_id: HashMap::new() };
+    let empty = St { doc: match n { XmlNode::Document(d) => d.clone(), _ => return String::new() }, handles: vec![], by_id: HashMap::new(), expanded: false };
     let mut seen = vec![];
     let d = dump(&empty, n, 0, &mut seen).replace("h?:", "");
     // an empty text node denotes no character; adjacent text nodes read back as one; a reference to a predefined
@@ -656,15 +660,24 @@ fn apply(st: &mut St, op: &str) -> String {
 }
 
 pub fn dom(args: &[String]) -> String {
+    dom_with(args, false)
+}
+
+// the same histories on a document read with text expansion on (monitors only: the DOM model is the raw view)
+pub fn domx(args: &[String]) -> String {
+    dom_with(args, true)
+}
+
+fn dom_with(args: &[String], expanded: bool) -> String {
     if args.len() < 2 {
         return "bad-op".to_string();
     }
-    let doc = match XmlDocument::from_raw_with_context(&args[0], Context::from_text_expanded(false)) {
+    let doc = match XmlDocument::from_raw_with_context(&args[0], Context::from_text_expanded(expanded)) {
         Ok(("", d)) => d,
         _ => return "err:doc".to_string(),
     };
     let exprs: Vec<String> = args[1].split(';').filter(|s| !s.is_empty()).map(|s| s.to_string()).collect();
-    let mut st = St { doc: doc.clone(), handles: vec![], by_id: HashMap::new() };
+    let mut st = St { doc: doc.clone(), handles: vec![], by_id: HashMap::new(), expanded };
     let root = doc.as_node();
     st.number(&root, 0);
     let mut out: Vec<String> = vec![];
